@@ -471,15 +471,19 @@ def _check_image(ctx, d, ds, fr, reqs, pending):
             if st == 'ok':
                 ref2 = ref.copy()
                 ref2[0], ref2[n - 1] = ref[n - 1], ref[0]
-                for what, f, want in (('pixel_array', lambda: np.asarray(im.pixel_array).reshape(ref.shape), ref2),
-                                      ('get_stored_frame', lambda: im.get_stored_frame(1), ref2[0]),
-                                      ('get_stored_frame', lambda: im.get_stored_frame(n), ref2[n - 1]),
-                                      ('get_stored_frames', lambda: im.get_stored_frames(), ref2),
-                                      ('get_raw_frame+decode', lambda: im.get_stored_frames([n, 1]), ref2[[n - 1, 0]]),
-                                      ('get_frame', lambda: im.get_frame(1, dtype=np.int64, **_NO_TRANSFORMS), ref2[0]),
-                                      ('get_frames', lambda: im.get_frames([n, 1], dtype=np.int64, **_NO_TRANSFORMS), ref2[[n - 1, 0]])):
+                checks = [('pixel_array', lambda: np.asarray(im.pixel_array).reshape(ref.shape), ref2),
+                          ('get_stored_frame', lambda: im.get_stored_frame(1), ref2[0]),
+                          ('get_stored_frame', lambda: im.get_stored_frame(n), ref2[n - 1]),
+                          ('get_stored_frames', lambda: im.get_stored_frames(), ref2),
+                          ('get_raw_frame+decode', lambda: im.get_stored_frames([n, 1]), ref2[[n - 1, 0]]),
+                          ('get_frame', lambda: im.get_frame(1, dtype=np.int64, **_NO_TRANSFORMS), ref2[0]),
+                          ('get_frames', lambda: im.get_frames([n, 1], dtype=np.int64, **_NO_TRANSFORMS), ref2[[n - 1, 0]])]
+                # in ANY order: whichever accessor comes first after the replacement must notice it (an accessor that re-decodes
+                # repairs the cache for those that follow)
+                ctx.rng('replaced-order', d['idx']).shuffle(checks)
+                for pos, (what, f, want) in enumerate(checks):
                     st, val = _fetch(f)
-                    ctx.case(path=name + '/pixel-data-replaced')
+                    ctx.case(path=name + '/pixel-data-replaced', first_after_replacement=what if pos == 0 else None)
                     if st != 'ok' or not np.array_equal(np.asarray(val).astype(np.int64), want.astype(np.int64)):
                         ctx.fail({'image': d, 'path': name, 'call': what,
                                   'history': 'decode whole array, replace PixelData value (first and last frame swapped), fetch'},
